@@ -44,35 +44,38 @@ type loopShape struct {
 	Src      string
 	Infinite bool
 	MaxConc  int
+	Warm     int // the compiled program has run this often before, quickly and without error (bindings n = 0.5)
 }
 
 var loopShapes = []loopShape{
-	{"for", `for(;;){}`, true, 64},
-	{"while-push", `var a=[]; while(true){ a.push(1); if (a.length > 1000) { a = []; } }`, true, 64},
-	{"mutual-rec", `function f(n){ return n<=0 ? 0 : g(n-1); } function g(n){ return n<=0 ? 0 : f(n-1); } for(;;){ f(200); }`, true, 64},
-	{"deep-rec", `function r(n){ return n<=0 ? 0 : 1 + r(n-1); } for(;;){ r(2000); }`, true, 64},
-	{"prop-churn", `var o={}, i=0; for(;;){ o['k'+(i%50)] = i; delete o['k'+((i+25)%50)]; i++; }`, true, 64},
-	{"array-ops", `var a=[3,1,2], i=0; for(;;){ a[i%3] = i; a.indexOf(i); a.slice(0,2); i++; }`, true, 64},
-	{"string-ops", `var s=''; for(;;){ s = (s + 'x').slice(-10); }`, true, 64},
-	{"try-catch", `for(;;){ try { for(;;){} } catch(e) {} }`, true, 64},
-	{"try-finally", `for(;;){ try { for(;;){} } finally { for(;;){} } }`, true, 64},
-	{"bindings-churn", `var b=_.bindings||{}, i=0; for(;;){ b['n'] = i++; _.out === undefined; }`, true, 64},
+	{"for", `for(;;){}`, true, 64, 0},
+	{"while-push", `var a=[]; while(true){ a.push(1); if (a.length > 1000) { a = []; } }`, true, 64, 0},
+	{"mutual-rec", `function f(n){ return n<=0 ? 0 : g(n-1); } function g(n){ return n<=0 ? 0 : f(n-1); } for(;;){ f(200); }`, true, 64, 0},
+	{"deep-rec", `function r(n){ return n<=0 ? 0 : 1 + r(n-1); } for(;;){ r(2000); }`, true, 64, 0},
+	{"prop-churn", `var o={}, i=0; for(;;){ o['k'+(i%50)] = i; delete o['k'+((i+25)%50)]; i++; }`, true, 64, 0},
+	{"array-ops", `var a=[3,1,2], i=0; for(;;){ a[i%3] = i; a.indexOf(i); a.slice(0,2); i++; }`, true, 64, 0},
+	{"string-ops", `var s=''; for(;;){ s = (s + 'x').slice(-10); }`, true, 64, 0},
+	{"try-catch", `for(;;){ try { for(;;){} } catch(e) {} }`, true, 64, 0},
+	{"try-finally", `for(;;){ try { for(;;){} } finally { for(;;){} } }`, true, 64, 0},
+	{"bindings-churn", `var b=_.bindings||{}, i=0; for(;;){ b['n'] = i++; _.out === undefined; }`, true, 64, 0},
 	// the time is spent while the result is exported (a getter of the returned object): D51, hung Exec
-	{"getter-loop", `return {get a() { for(;;){} }};`, true, 64},
-	{"getter-rec", `return {x: {get a() { function f(n){ return n<=0 ? 0 : 1 + f(n-1); } for(;;){ f(100); } }}};`, true, 64},
+	{"getter-loop", `return {get a() { for(;;){} }};`, true, 64, 0},
+	{"getter-rec", `return {x: {get a() { function f(n){ return n<=0 ? 0 : 1 + f(n-1); } for(;;){ f(100); } }}};`, true, 64, 0},
 	// endless without a loop statement or the word function: recursion through shorthand methods, arrows and accessors
-	{"method-rec", `var o = {spin(n) { return n < 1 ? 1 : this.spin(n-1) + this.spin(n-1); }}; return {r: o.spin(300)};`, true, 64},
-	{"arrow-rec", `var f = (n) => n < 1 ? 1 : f(n-1) + f(n-1); return {r: f(300)};`, true, 64},
-	{"accessor-rec", `var o = {n: 300, get x() { if (this.n < 1) { return 1; } this.n--; var a = this.x + this.x; this.n++; return a; }}; return {r: o.x};`, true, 64},
-	{"unbounded-rec", `function f(n){ return f(n+1)+1; } return {x: f(0)};`, true, 4},
-	{"finite-loop", `var s=0; for(var i=0;i<2000;i++){ s+=i; } return {s: s};`, false, 64},
-	{"finite-rec", `function r(n){ return n<=0 ? 0 : 1 + r(n-1); } return {r: r(300)};`, false, 64},
-	{"finite-trivial", `return _.bindings;`, false, 64},
+	{"method-rec", `var o = {spin(n) { return n < 1 ? 1 : this.spin(n-1) + this.spin(n-1); }}; return {r: o.spin(300)};`, true, 64, 0},
+	{"arrow-rec", `var f = (n) => n < 1 ? 1 : f(n-1) + f(n-1); return {r: f(300)};`, true, 64, 0},
+	{"accessor-rec", `var o = {n: 300, get x() { if (this.n < 1) { return 1; } this.n--; var a = this.x + this.x; this.n++; return a; }}; return {r: o.x};`, true, 64, 0},
+	// whether it ends depends on the bindings: the same compiled program has ended quickly a hundred times before
+	{"data-loop", `var n = _.bindings.n; while (n != 0.5) { n = n - 1; if (n < -1000) { n = 1000; } } return {};`, true, 64, 100},
+	{"unbounded-rec", `function f(n){ return f(n+1)+1; } return {x: f(0)};`, true, 4, 0},
+	{"finite-loop", `var s=0; for(var i=0;i<2000;i++){ s+=i; } return {s: s};`, false, 64, 0},
+	{"finite-rec", `function r(n){ return n<=0 ? 0 : 1 + r(n-1); } return {r: r(300)};`, false, 64, 0},
+	{"finite-trivial", `return _.bindings;`, false, 64, 0},
 	// finite scripts that end with an error of their own (not an interruption): the watcher must go away all the same
-	{"finite-throw", `throw "boom";`, false, 64},
-	{"finite-referr", `return nosuch.x;`, false, 64},
-	{"finite-badret", `return 42;`, false, 64},
-	{"finite-emitbad", `_.out(function(){}); return _.bindings;`, false, 64},
+	{"finite-throw", `throw "boom";`, false, 64, 0},
+	{"finite-referr", `return nosuch.x;`, false, 64, 0},
+	{"finite-badret", `return 42;`, false, 64, 0},
+	{"finite-emitbad", `_.out(function(){}); return _.bindings;`, false, 64, 0},
 }
 
 // endsWithOwnError: the script ends by itself with an error; for the protocol that is "finished"
@@ -136,6 +139,13 @@ func runBatch(sh loopShape, deadline int, explicit bool, conc, route int) *tBatc
 	action, err := as.Compile(ctxBG, interpreters())
 	if err != nil {
 		panic(err)
+	}
+	for k := 0; k < sh.Warm; k++ {
+		wctx, wcancel := context.WithTimeout(ctxBG, 20*time.Second)
+		wbs := match.Bindings{"n": 0.5}
+		sharedInterpreter.Exec(wctx, wbs, nil, sh.Src, compiled)
+		action.Exec(wctx, wbs, nil)
+		wcancel()
 	}
 	runtime.GC()
 	b.Before = settleGoroutines(0, 50*time.Millisecond)
